@@ -681,7 +681,7 @@ theorem exec_delta {nt : Nat} (s : St) (op : Op) (h : MInv nt s) (hd : DInv s) :
               (if t = .gas ∧ dst = nt then amt else 0) := by simp [hsrc]
           rw [e1] at hl; exact hl
         exact afterPosted_delta s t l src dst amt (recvOf s.env dst dk) data d1 d2 h hd hl' ha st
-  | vote acc pub caller =>
+  | vote acc pub caller cb =>
     simp only [exec]
     split
     · exact hd
@@ -698,17 +698,25 @@ theorem exec_delta {nt : Nat} (s : St) (op : Op) (h : MInv nt s) (hd : DInv s) :
           cases t with
           | neo => simp [balOf, evNet, hbal' a]
           | gas => simp [balOf, evNet, hgas']⟩
+        have noCb : ∀ s' : St, DInv s' → DInv (if cb = true then { s' with skip := 1 } else s') := by
+          intro s' h'; split
+          · exact ⟨h'.cur, h'.snap⟩
+          · exact h'
         cases b with
-        | false => exact hd.done l .f st
+        | false => exact noCb _ (hd.done l .f st)
         | true =>
           simp only []
           cases g with
-          | none => exact hd.done l .t st
+          | none => exact noCb _ (hd.done l .t st)
           | some g =>
             simp only []
             cases hm : mintGasCb s.env l acc g with
             | none => exact hd.throw
-            | some l' => exact hd.done l' .t (st.trans (mintGasCb_step s.env l l' acc g hv' hm))
+            | some l' =>
+              simp only []
+              split
+              · exact ⟨hd.cur.step (st.trans (mintGasCb_step s.env l l' acc g hv' hm)), hd.snap⟩
+              · exact noCb _ (hd.done l' .t (st.trans (mintGasCb_step s.env l l' acc g hv' hm)))
   | register pub caller =>
     simp only [exec]
     split
@@ -812,12 +820,7 @@ theorem exec_delta {nt : Nat} (s : St) (op : Op) (h : MInv nt s) (hd : DInv s) :
 theorem step_delta {nt : Nat} (s : St) (op : Op) (h : MInv nt s) (hd : DInv s) : DInv (step s op) := by
   unfold step
   split
-  · split
-    · split
-      · exact ⟨hd.cur, hd.snap⟩
-      · exact hd
-    · exact ⟨hd.cur, hd.snap⟩
-    · exact hd
+  · (repeat' split) <;> first | exact hd | exact ⟨hd.cur, hd.snap⟩
   · split
     · exact hd.throw
     · exact exec_delta s op h hd
